@@ -16,11 +16,11 @@ func init() {
 	register(&propertyDef{
 		id:    "C18",
 		title: "built-in expression functions are total, typed as declared and obey their laws",
-		rules: []ruleFunc{c18R1, c18R2, c18R3, c18R4, c18R5},
+		rules: []ruleFunc{c18R1, c18R2, c18R3, c18R4, c18R5, c18R6},
 		decided: "handler totality: every index, slice, float-to-integer conversion, unchecked assertion and integer division in a built-in function handler is guarded on the same operand or justified by the declared parameter schema (R1); " +
 			"for handlers that wrap a strconv formatter, the formatter's output grammar (tabled from the strconv documentation) is included in the declared output pattern, decided exactly by regular-language inclusion under MatchString semantics (R2); " +
-			"handlers use no clock, random numbers or package variables, the two environment/file functions are tabled (R3); every constructor is registered under its own ID (R4); bindConstants writes exactly the two keys its type handler declares, by index (R5).",
-		notDecided: "the numeric laws themselves (monotonicity, truncation toward zero, round trips): they quantify over values.",
+			"handlers use no clock, random numbers or package variables, the two environment/file functions are tabled (R3); every constructor is registered under its own ID (R4); bindConstants writes exactly the two keys its type handler declares, by index (R5); the functions documented as wrappers of a standard-library function delegate to it on every path with the documented fixed arguments (R6).",
+		notDecided: "the numeric laws themselves (monotonicity, truncation toward zero, round trips): they quantify over values; R6 only pins each wrapper to the library function whose laws those are.",
 	})
 }
 
@@ -179,6 +179,10 @@ func c18R1(c *Ctx) {
 				n++
 				key := mk("string-index")
 				idx, isC := constInt(strIdx)
+				if !isC && indexBoundedByLen(r.I, strIdx, strX) {
+					c.ok(rule, key, c.instrPos(r.I), "the index is a non-negative loop counter tested against len() of the indexed string on the dominating edge", true)
+					return
+				}
 				pi := -1
 				for i, p := range h.Params {
 					if strX == ssa.Value(p) {
@@ -234,33 +238,61 @@ func c18R1(c *Ctx) {
 				risky++
 				n++
 				key := mk("float-to-int")
-				lower, upper := false, false
-				// dominating comparisons on the same operand whose "out of range" edge leaves the path
+				lower, upper, nan := false, false, false
+				var seen []string
+				// Exact: the constraints that hold on every path to the conversion (dominating branch edges on the same
+				// operand against constants) must confine it to [-2^63, 2^63) and exclude NaN; int64(x) is only defined there.
+				const two63 = 9223372036854775808.0
 				eachInstr(h, func(r2 instrRef) {
 					ifi, ok := r2.I.(*ssa.If)
 					if !ok {
 						return
 					}
-					b, ok := ifi.Cond.(*ssa.BinOp)
-					if !ok || b.X != x.X {
-						return
-					}
-					if _, isConst := b.Y.(*ssa.Const); !isConst {
-						return
-					}
-					switch b.Op {
-					case token.GEQ, token.GTR:
-						if edgeDominates(r2.Block, 1, x.Block()) {
-							upper = true
+					for succ := 0; succ < 2; succ++ {
+						if !edgeDominates(r2.Block, succ, x.Block()) {
+							continue
 						}
-					case token.LEQ, token.LSS:
-						if edgeDominates(r2.Block, 1, x.Block()) {
-							lower = true
+						switch cnd := ifi.Cond.(type) {
+						case *ssa.BinOp:
+							op := cnd.Op
+							var cv *ssa.Const
+							if cnd.X == x.X {
+								cv, _ = cnd.Y.(*ssa.Const)
+							} else if cnd.Y == x.X {
+								cv, _ = cnd.X.(*ssa.Const)
+								op = flipCmp(op)
+							}
+							if cv == nil || cv.Value == nil {
+								continue
+							}
+							if succ == 1 {
+								op = negateCmp(op) // NaN makes every comparison false: handled by the separate NaN obligation
+							}
+							f, _ := constant.Float64Val(constant.ToFloat(cv.Value))
+							seen = append(seen, fmt.Sprintf("x %s %g", op, f))
+							switch op {
+							case token.LSS:
+								if f <= two63 {
+									upper = true
+								}
+							case token.LEQ:
+								if f < two63 {
+									upper = true
+								}
+							case token.GEQ, token.GTR:
+								if f >= -two63 {
+									lower = true
+								}
+							}
+						case *ssa.Call:
+							if succ == 1 && calleeName(&cnd.Call) == "math.IsNaN" && len(cnd.Call.Args) == 1 && cnd.Call.Args[0] == x.X {
+								nan = true
+							}
 						}
 					}
 				})
-				c.verdict(lower && upper, rule, key, c.instrPos(x), "the operand is bounded on both sides before the conversion",
-					fmt.Sprintf("float-to-integer conversion without range guards (lower=%v upper=%v): Go leaves the result of converting an out-of-range float implementation-defined (1e300 becomes MinInt64 on amd64), against the documented saturation", lower, upper))
+				c.verdict(lower && upper && nan, rule, key, c.instrPos(x), "on every path to the conversion the operand is confined to [-2^63, 2^63) and is not NaN ("+strings.Join(seen, ", ")+")",
+					fmt.Sprintf("float-to-integer conversion reachable with an operand outside [-2^63, 2^63) or NaN (lower bound established=%v, upper bound strictly below 2^63 established=%v, NaN excluded=%v; constraints seen: %s): Go leaves the result of converting an out-of-range float implementation-defined (2^63 and 1e300 become MinInt64 on amd64), against the documented saturation", lower, upper, nan, strings.Join(seen, ", ")))
 			case *ssa.TypeAssert:
 				if !x.CommaOk {
 					risky++
@@ -597,4 +629,68 @@ func stringIndexOperand(v ssa.Value) ssa.Value {
 		return x
 	}
 	return nil
+}
+
+func flipCmp(op token.Token) token.Token {
+	switch op {
+	case token.LSS:
+		return token.GTR
+	case token.GTR:
+		return token.LSS
+	case token.LEQ:
+		return token.GEQ
+	case token.GEQ:
+		return token.LEQ
+	}
+	return op
+}
+
+func negateCmp(op token.Token) token.Token {
+	switch op {
+	case token.LSS:
+		return token.GEQ
+	case token.GTR:
+		return token.LEQ
+	case token.LEQ:
+		return token.GTR
+	case token.GEQ:
+		return token.LSS
+	case token.EQL:
+		return token.NEQ
+	case token.NEQ:
+		return token.EQL
+	}
+	return op
+}
+
+// indexBoundedByLen: the index is a counter that starts at a non-negative constant and only grows, and the indexing
+// instruction is dominated by the true edge of `idx < len(x)`.
+func indexBoundedByLen(at ssa.Instruction, idx, x ssa.Value) bool {
+	phi, ok := idx.(*ssa.Phi)
+	if !ok {
+		return false
+	}
+	for _, e := range phi.Edges {
+		if n, isC := constInt(e); isC {
+			if n < 0 {
+				return false
+			}
+			continue
+		}
+		b, ok := e.(*ssa.BinOp)
+		if !ok || b.Op != token.ADD || b.X != ssa.Value(phi) {
+			return false
+		}
+		if n, isC := constInt(b.Y); !isC || n <= 0 {
+			return false
+		}
+	}
+	return guardedBy(at, true, func(cond ssa.Value) bool {
+		b, ok := cond.(*ssa.BinOp)
+		if !ok || b.Op != token.LSS || b.X != idx {
+			return false
+		}
+		l, ok := b.Y.(*ssa.Call)
+		return ok && isBuiltinCall(l, "len") && l.Call.Args[0] == x
+	}) != nil
 }
